@@ -184,6 +184,16 @@ func Generate(rng *rand.Rand) *uni.Universe {
 					rq.Scope = "runtime"
 				case 3:
 					rq.Opt = true
+				case 4:
+					if rng.Intn(3) == 0 {
+						// Two root-only marks on one declaration.
+						rq.Opt = true
+						if rng.Intn(2) == 0 {
+							rq.Test = true
+						} else {
+							rq.Scope = "provided"
+						}
+					}
 				}
 				if rng.Intn(6) == 0 {
 					ex := []string{exclusion()}
